@@ -139,7 +139,16 @@ def run(ctx: Ctx, rs: RuleSet, tier: str):
   rule = 'WMC.factory-invocation'
   rs.declare(rule, 'factories are invoked only in per-call code', 3)
   sites = []
-  for modname in (P, AF, 'fiddle._src.building'):
+  core = {P, AF, 'fiddle._src.building'}
+  for modname in sorted(p.modules):
+    if not modname.startswith('fiddle._src.') or modname.endswith('_test'):
+      continue
+    # the modules of the mechanism, and any module they import privately
+    # (code moved out of them stays in scope)
+    if modname not in core and not any(
+        modname in (getattr(p.modules[c_], 'imports', {}) or {}).values()
+        for c_ in core if c_ in p.modules):
+      continue
     for f in ctx.mod(modname).all_funcs:
       # names bound to a factory: `for name, factory in factories.items()`
       for c in ctx.calls(f):
@@ -155,12 +164,16 @@ def run(ctx: Ctx, rs: RuleSet, tier: str):
   # function references) from one of the per-call entry points and not from
   # the build-time ones.  _invoke_arg_factories is per-call because it is only
   # ever referenced deferred (WMC.deferred-expansion below re-verifies that).
-  inv_q = f'{P}._invoke_arg_factories'
+  inv_q = ctx.func(f'{P}._invoke_arg_factories').qualname  # wherever it lives
   build_roots = [q for q, f_ in p.funcs.items() if f_.name == '__build__'] + [
-      f'{P}._build_partial', f'{P}._promote_arg_factory',
+      ctx.func(f'{P}._build_partial').qualname,
+      ctx.func(f'{P}._promote_arg_factory').qualname,
       'fiddle._src.building.build', 'fiddle._src.building.call_buildable']
   build_roots = [q for q in build_roots if q in p.funcs]
-  build_time = ctx.cg.reachable(build_roots, stop={inv_q})
+  # creating a callable object ('inst' edges) does not call it
+  build_time = ctx.cg.reachable(
+      build_roots, kinds=('exact', 'approx', 'ref', 'nested', 'proto'),
+      stop={inv_q})
   build_time.pop(inv_q, None)
   percall_roots = [ctx.func(f'{AF}._InvokeArgFactoryWrapper.__call__').qualname,
                    ctx.func(inv_q).qualname]
@@ -181,13 +194,18 @@ def run(ctx: Ctx, rs: RuleSet, tier: str):
              'never while building', ctx.loc(f, c))
   # _invoke_arg_factories / _arg_factory_value referenced only deferred
   refs = []
-  for f in ctx.mod(P).all_funcs:
-    if f.qualname.startswith(inv_q):
+  inv_f = ctx.func(inv_q)
+  for mname, mod_ in sorted(p.modules.items()):
+    if not mname.startswith('fiddle._src.') or mname.endswith('_test'):
       continue
-    for n in walk_function(f.node):
-      if isinstance(n, ast.Name) and n.id == '_invoke_arg_factories' and (
-          isinstance(n.ctx, ast.Load)):
-        refs.append((f, n))
+    for f in mod_.all_funcs:
+      if f.qualname.startswith(inv_f.qualname):
+        continue
+      for n in walk_function(f.node):
+        if isinstance(n, (ast.Name, ast.Attribute)) and isinstance(
+            n.ctx, ast.Load) and unparse(n).split('.')[-1] == inv_f.name and (
+                p.resolve(n, f) in (inv_f.qualname, inv_q)):
+          refs.append((f, n))
   rule = 'WMC.deferred-expansion'
   rs.declare(rule, 'the container expansion is only ever deferred', 1)
   if not refs:
@@ -199,7 +217,8 @@ def run(ctx: Ctx, rs: RuleSet, tier: str):
       if unparse(c.func) == 'functools.partial' and c.args and c.args[0] is n:
         deferred = True
         wrapped = any(
-            isinstance(w, ast.Call) and unparse(w.func) == '_BuiltArgFactory'
+            isinstance(w, ast.Call) and unparse(w.func).split('.')[-1] == (
+                '_BuiltArgFactory')
             and w.args and w.args[0] is c for w in ctx.calls(f))
         deferred = deferred and wrapped
     rs.check(deferred, rule, f'{f.qualname}:_invoke_arg_factories',
